@@ -25,6 +25,9 @@ LEVEL_NOTE = (
 ASSUMPTIONS = ["re._parser.parse yields the regex AST compared with the specification's name pattern"]
 
 
+_NO_DEFAULT_REP = object()  # stands for the NO_DEFAULT sentinel in evaluated environments
+
+
 class Roles:
     """variables of _parse_schema found by role, not by name"""
 
@@ -382,6 +385,27 @@ def run(ctx):
                 ctx.unrecognised("C11.R5", f"{kind} arm checks its default is a {typ.__name__}", ps.where(arm), f"guard of the default error not evaluable: {undecided}")
             else:
                 ctx.check("C11.R5", f"{kind} arm checks its default is a {typ.__name__}", ok, ps.where(arm) if arm else ps.where(), f"_parse_schema {kind} arm: default check", f"a default of the wrong JSON kind for {kind} is accepted")
+        # a default of the right JSON kind is not refused for any other reason: the arm of each named / container kind is
+        # evaluated on a valid default (for fixed: a string of `size` code points above 127, one byte each in the
+        # specification's mapping of code points 0-255 to bytes)
+        valid = {
+            "fixed": ("\u00ff\u00fe", {"type": "fixed", "name": "F", "size": 2}),
+            "enum": ("A", {"type": "enum", "name": "E", "symbols": ["A", "B"]}),
+            "array": ([], {"type": "array", "items": "int"}),
+            "map": ({}, {"type": "map", "values": "int"}),
+        }
+        for kind, (dflt, sch) in valid.items():
+            arm = R.arms.get(kind)
+            if arm is None:
+                continue
+            if not any(isinstance(n, ast.Raise) for n in arm_nodes(arm)):
+                continue  # nothing in the arm itself can refuse anything
+            env = {R.default: dflt, R.schema: dict(sch), R.parsed: dict(sch), R.tvar: kind, R.ignore: False, R.namespace: "", R.expand: False, R.hint: False, R.names: [], R.named: {}, "NO_DEFAULT": _NO_DEFAULT_REP}
+            r = guards.run_chain(list(arm.body), env, {}, effects=[])
+            if r[0] == "raise" and R.default in {x.id for t in true_facts(cfg, cfg.node_of(r[1])) for x in ast.walk(ast.parse(t, mode="eval")) if isinstance(x, ast.Name)} | {x.id for x in ast.walk(r[1]) if isinstance(x, ast.Name)}:
+                ctx.violation("C11.R5", f"{kind} arm accepts a default of the right kind", ps.where(r[1]), f"_parse_schema {kind} arm: `{norm(r[1])[:80]}` is reached for the default {dflt!r} of {sch}", "a specification-valid default is refused (for bytes / fixed a default is a string whose code points 0-255 stand for one byte each: its length in bytes is its length in characters, not the length of its UTF-8 encoding)")
+            elif r[0] in ("fall", "return"):
+                ctx.holds("C11.R5", f"{kind} arm accepts a default of the right kind", ps.where(arm))
     finally:
         guards.HOOK["call"] = guards.HOOK["value"] = None
     if rd is None:
